@@ -86,10 +86,14 @@ def check(ctx):
     traces = anngen.run(ctx.seed, ctx.pick(360, 6000), ctx.pick(7, 10), INSTS, list("ABCDEF"), tag="c10")
     # an instance constructed with a Timings object of its own (another ANNOUNCE_TTL than the stack's)
     own = anngen.run(ctx.seed, ctx.pick(60, 600), ctx.pick(7, 10), ["I1", "I7"], list("ABCF"), tag="c10o")
-    bad, ms = judge(ctx, "Mon_C10", traces + own + scale_traces() + failed_send_traces() + anngen.raising_listener_family(), "announcer histories", anngen.payload)
+    # the application queues its stop() with call_soon: it runs among the library's own callbacks of the next iteration
+    dq = anngen.run(ctx.seed, ctx.pick(120, 1500), ctx.pick(7, 10), INSTS, list("ABDF"), tag="c10q", defer_share=0.5)
+    bad, ms = judge(ctx, "Mon_C10", traces + own + dq + scale_traces() + failed_send_traces() + anngen.raising_listener_family(), "announcer histories", anngen.payload)
     sim = anngen.spec_to_code_ann(ctx, "Mon_C10", "[C10_A EXCEPT !.randVals = {0}]", "C10_Inputs", "A", ["I1"], ["I1"], ctx.pick(25, 400))
     probes = simple_service_probe(ctx)
     acc, total = anngen.conform_by_variant(ctx, traces, ctx.pick(120, 1200))
+    accq, totalq = anngen.conform_by_variant(ctx, dq, ctx.pick(30, 300))
+    acc, total = acc + accq, total + totalq
     cov = dict(states=m1.states, transitions=m1.trans, traces_validated_against_impl=acc, monitor_traces=len(traces),
                monitor_failures=bad, monitor_states=ms, conformance_traces=total, spec_drift=total - acc,
                tlc_runs=m1.runs, helper_probe_failures=probes, exhaustive=False, **sim,
